@@ -254,8 +254,11 @@ class SeqGen:
         ids = self.ack_pick(s, r.choice([1, 1, 2, 3, 0])) if s else ([] if r.chance(1, 3) else [str(r.range(1, 5))])
         if r.chance(1, 25):
             ids.insert(r.below(len(ids) + 1), r.choice(["x", "-1", "", "1.5"]))
+        if s and r.chance(*self.p.get("big_batch_chance", (1, 30))):
+            fill = [str(10 ** 6 + k) for k in range(r.choice([300, 520, 600, 1100]))]
+            ids = ids + fill + ([r.choice(["x", "not-an-ack-id", ""])] if r.chance(1, 2) else [])
         self.emit("ack %s %s" % (hx(n), jl(hx(i) for i in ids)))
-        if s:
+        if s and all(i.isdigit() for i in ids):
             gone = set(ids)
             s.out = [(a, d) for (a, d) in s.out if str(a) not in gone]
 
@@ -269,6 +272,11 @@ class SeqGen:
         secs = r.choice(self.p.get("mod_secs", [0, 0, 1, 5, 10, 30, 599, 600, 601, 3600, -1]))
         if r.chance(1, 25):
             ids.insert(r.below(len(ids) + 1), r.choice(["x", "-1", ""]))
+        if s and r.chance(*self.p.get("big_batch_chance", (1, 30))):
+            # one request with hundreds of ids: the live ones first, unknown fillers, and (half the time) a
+            # malformed id far behind them — the request is still ONE all-or-nothing unit
+            fill = [str(10 ** 6 + k) for k in range(r.choice([300, 520, 600, 1100]))]
+            ids = ids + fill + ([r.choice(["x", "not-an-ack-id", ""])] if r.chance(1, 2) else [])
         self.emit("mod %s %d %s" % (hx(n), secs, jl(hx(i) for i in ids)))
         if s and secs >= 0 and all(i.isdigit() for i in ids):
             for i in ids:
@@ -410,6 +418,11 @@ class SeqGen:
         bad_names = [b"", b"x", b"projects/p1", b"projects/p1/topics", b"projects/p1/subscriptions/", b"projects//x",
                      b"projects/p1/topicz/t1", b"projects/p1/subscriptionz/s1", "projects/é".encode(), b"/" * 30,
                      b"projects/p1/topics/t1", b"projects/p1/subscriptions/s1", b"p" * 5000]
+        if r.chance(1, 4):
+            # long, malformed, non-ASCII: 2-, 3- and 4-byte characters behind prefixes of both parities
+            ch = r.choice(["é", "日", "𝄞"])
+            pre = r.choice([b"projects/p1/topic/", b"projects/p1/topicz/", b"project/p", b"x", b"projects/p1/subscription/", b""])
+            bad_names = [pre + (ch * r.choice([90, 130, 300, 700])).encode()]
         bn = hx(r.choice(bad_names))
         kind = r.below(15)
         t = hx(self.live_topic() or tname("p1", "t1"))
@@ -425,7 +438,12 @@ class SeqGen:
         elif kind == 4:
             self.emit("pull %s 1 1" % bn)
         elif kind == 5:
-            self.emit("ack %s %s" % (bn, hx(b"1")))
+            if r.chance(1, 3):
+                # a malformed ack id (long, non-ASCII) as the LAST element of an otherwise valid batch
+                ch = r.choice(["é", "日", "𝄞"])
+                self.emit("ack %s %s" % (s, jl([hx(b"1"), hx(b"2"), hx((ch * r.choice([100, 129, 300])).encode())])))
+            else:
+                self.emit("ack %s %s" % (bn, hx(b"1")))
         elif kind == 6:
             self.emit("mod %s -1 %s" % (s, hx(b"1")))
         elif kind == 7:
@@ -510,7 +528,7 @@ DEADLINES = {
     "adv": [1000, 999000, 1000000, 9000000, 9899000, 9999000, 10000000, 10001000, 10099000, 10100000, 10199000, 10200000, 16999000, 17000000],
     "adv_jitter": (1, 2), "adv_jitter_us": 200000, "edge_chance": (1, 3),
     "mod_secs": [0, 1, 2, 9, 10, 11, 30, 599, 600, 601, 2 ** 31 - 1],
-    "block_chance": (1, 4),
+    "block_chance": (1, 4), "big_batch_chance": (1, 12),
     "weights": {"csub": 2, "pub": 10, "pull": 16, "ack": 4, "mod": 10, "adv": 22, "stats": 3, "gsub": 2, "lists": 1,
                 "sopen": 2, "sread": 2, "ssend": 5, "sdrop": 1},
 }
